@@ -2,6 +2,9 @@ SPECIFICATION TSpec
 CONSTANTS
   Roles = {TRUE, FALSE}
   RequireMI = TRUE
+  Dispatch = "class"
+  Methods = {"binding", "other"}
+  Priorities = {TRUE, FALSE}
   ForgedAuth = {"none", "wrong", "trunc"}
   Usernames = {"ok", "other"}
   MaxTx = 99
